@@ -19,3 +19,80 @@ Definition c19_check (s : sexp) : sexp :=
     end
   | _ => SL [SA "bad-input"]
   end.
+
+(* Entry point c19b: the conversion builtins of Core/Builtins.v on a value of the script universe.
+   input  (op V ((str ()) | (str (bits)) ...))     output  (i z) (f bits) (li z..) (lf bits..) (lb b..)
+   (s str) (vals V..) (error) (miss what) *)
+From Coq Require Import Floats.SpecFloat.
+From Anko Require Import Base.F64 Interp.ToX Core.Builtins.
+
+Fixpoint dec_cval (fuel : nat) (s : sexp) : option cval :=
+  match fuel with
+  | O => None
+  | S f =>
+    match s with
+    | SL [SA "nil"] => Some CNil
+    | SL [SA "b"; b] => option_map CBool (as_bool b)
+    | SL [SA "i"; z] => option_map CInt (as_Z z)
+    | SL [SA "f"; b] => option_map (fun z => CFloat (of_bits z)) (as_Z b)
+    | SL [SA "s"; SA x] => Some (CStr x)
+    | SL (SA "l" :: xs) => option_map CList (map_opt (dec_cval f) xs)
+    | SL (SA "m" :: kvs) =>
+        option_map CMap (map_opt (fun kv => match kv with
+                                            | SL [k; v] => match dec_cval f k, dec_cval f v with
+                                                           | Some k, Some v => Some (k, v)
+                                                           | _, _ => None end
+                                            | _ => None end) kvs)
+    | _ => None
+    end
+  end.
+
+Fixpoint enc_cval (fuel : nat) (v : cval) : sexp :=
+  match fuel with
+  | O => SA "deep"
+  | S f =>
+    match v with
+    | CNil => SL [SA "nil"]
+    | CBool b => SL [SA "b"; sbool b]
+    | CInt z => SL [SA "i"; sZ z]
+    | CFloat x => SL [SA "f"; sZ (to_bits x)]
+    | CStr x => SL [SA "s"; SA x]
+    | CList l => SL (SA "l" :: map (enc_cval f) l)
+    | CMap kvs => SL (SA "m" :: map (fun '(k, v) => SL [enc_cval f k; enc_cval f v]) kvs)
+    end
+  end.
+
+Definition dec_pf (s : sexp) : option (list (string * option f64)) :=
+  as_list (fun e => match e with
+                    | SL [SA k; SL []] => Some (k, None)
+                    | SL [SA k; SL [b]] => option_map (fun z => (k, Some (of_bits z))) (as_Z b)
+                    | _ => None end) s.
+
+Definition as_clist (v : cval) : option (list cval) := match v with CList l => Some l | _ => None end.
+
+Definition c19b_check (s : sexp) : sexp :=
+  match s with
+  | SL [SA op; v; pf] =>
+    match dec_cval 8 v, dec_pf pf with
+    | Some v, Some pf =>
+      let tri_out {A} (t : tri A) (k : A -> sexp) : sexp :=
+        match t with TOk a => k a | TErr => SL [SA "error"] | TMiss w => SL [SA "miss"; SA w] end in
+      if String.eqb op "toInt" then tri_out (to_int pf v) (fun z => SL [SA "i"; sZ z])
+      else if String.eqb op "toFloat" then tri_out (to_float pf v) (fun x => SL [SA "f"; sZ (to_bits x)])
+      else if String.eqb op "toIntSlice" then
+        match as_clist v with Some l => SL (SA "li" :: map sZ (to_int_slice l)) | None => SL [SA "error"] end
+      else if String.eqb op "toFloatSlice" then
+        match as_clist v with Some l => SL (SA "lf" :: map (fun x => sZ (to_bits x)) (to_float_slice l)) | None => SL [SA "error"] end
+      else if String.eqb op "toBoolSlice" then
+        match as_clist v with Some l => SL (SA "lb" :: map sbool (to_bool_slice l)) | None => SL [SA "error"] end
+      else if String.eqb op "len" then
+        match len v with Some n => SL [SA "i"; sZ n] | None => SL [SA "error"] end
+      else if String.eqb op "keys" then
+        match keys v with Some ks => SL (SA "vals" :: map (enc_cval 8) ks) | None => SL [SA "error"] end
+      else if String.eqb op "typeOf" then SL [SA "s"; SA (type_of v)]
+      else if String.eqb op "kindOf" then SL [SA "s"; SA (kind_of v)]
+      else SL [SA "bad-op"]
+    | _, _ => SL [SA "bad-input"]
+    end
+  | _ => SL [SA "bad-input"]
+  end.
